@@ -186,7 +186,7 @@ func buildIndex(rec BIndex) (bleve.Index, map[int]BDoc, error) {
 	switch rec.Kind {
 	case "scorch-mixed-dv":
 		idx, err = bleve.NewUsing("", bMappingMixed(), scorch.Name, scorch.Name, nil)
-	case "scorch":
+	case "scorch", "scorch-big":
 		idx, err = bleve.NewUsing("", bMapping(), scorch.Name, scorch.Name, nil)
 	case "upsidedown":
 		idx, err = bleve.NewMemOnly(bMapping())
@@ -251,10 +251,23 @@ func genIndex(rng *rand.Rand, kind string, ndocs int) BIndex {
 		d.TFx = rng.Intn(4)
 		d.TFz = rng.Intn(3) / 2
 		d.Pad = rng.Intn(3)
+		if kind == "scorch-big" {
+			// few matches among many documents: the matches of one query lie in
+			// different doc-value chunks (1024 documents each) of ONE segment
+			if rng.Intn(40) > 0 {
+				d.TFx = 0
+			}
+			if rng.Intn(90) > 0 {
+				d.TFz = 0
+			}
+		}
 		return d
 	}
 	perm := rng.Perm(ndocs)
 	nb := 1 + rng.Intn(4)
+	if kind == "scorch-big" {
+		nb = 1
+	}
 	batches := make([][]BOp, nb)
 	for i, p := range perm {
 		b := i * nb / ndocs
@@ -262,7 +275,7 @@ func genIndex(rng *rand.Rand, kind string, ndocs int) BIndex {
 	}
 	// a later batch re-indexes some documents (they move in the natural order
 	// of scorch) and deletes a few
-	if rng.Intn(3) > 0 {
+	if kind != "scorch-big" && rng.Intn(3) > 0 {
 		var ops []BOp
 		for i := 0; i < 1+ndocs/6; i++ {
 			id := 1 + rng.Intn(ndocs)
@@ -716,10 +729,11 @@ func engineB(c *core.Ctx) error {
 		kind  string
 		ndocs int
 	}
-	plans := []plan{{"scorch", 14}, {"scorch", 33}, {"upsidedown", 26}, {"scorch-mixed-dv", 24}}
+	plans := []plan{{"scorch", 14}, {"scorch", 33}, {"upsidedown", 26}, {"scorch-mixed-dv", 24}, {"scorch-big", 2300}}
 	if c.Thorough() {
 		plans = []plan{{"scorch", 9}, {"scorch", 14}, {"scorch", 23}, {"scorch", 33}, {"scorch", 40}, {"scorch", 31},
-			{"upsidedown", 12}, {"upsidedown", 26}, {"upsidedown", 37}, {"scorch-mixed-dv", 16}, {"scorch-mixed-dv", 24}, {"scorch-mixed-dv", 36}}
+			{"upsidedown", 12}, {"upsidedown", 26}, {"upsidedown", 37}, {"scorch-mixed-dv", 16}, {"scorch-mixed-dv", 24}, {"scorch-mixed-dv", 36},
+			{"scorch-big", 1500}, {"scorch-big", 2300}, {"scorch-big", 3500}}
 	}
 	perQuery := c.Pick(45, 100)
 
@@ -745,6 +759,13 @@ func engineB(c *core.Ctx) error {
 			n := perQuery
 			if len(g.seen[bq.Name]) == 0 {
 				n = 4
+			}
+			if p.kind == "scorch-big" {
+				// the judge sorts the whole match list: only the sparse queries
+				if len(g.seen[bq.Name]) > 120 {
+					continue
+				}
+				n = perQuery / 3
 			}
 			for k := 0; k < n; k++ {
 				rq, strs := g.genRequest(rng, bq.Name)
